@@ -9,6 +9,10 @@ import numpy as np
 
 from harness import core, gen_scheme
 from harness.gen_scheme import INF, _num
+from harness.props import _c02_layout
+from harness.props import _c02_steps as steps_mod
+
+LEAN_GEN_STEPS = core.LEAN / "GlotaranModel" / "Generated" / "C02Steps.lean"
 
 PROP = "C02"
 REQUIRED_THEOREMS = [
@@ -47,6 +51,25 @@ REQUIRED_THEOREMS = [
     "residual_positions_bijective_linked",
     "residual_entry_linked_spec",
     "full_model_kron",
+    "generated_megacomplexes_eq_model",
+    "generated_data_eq_model",
+    "generated_pipeline_eq_model_unlinked",
+    "generated_pipeline_eq_model_linked",
+    "generated_pipeline_eq_model_full",
+    "generated_assembly_eq_model",
+    "generated_objective_eq_model",
+    "source_objective_append",
+    "source_reduction_is_relations_then_constraints",
+    "interpreter_rejects_reordered_tables",
+    "explicit_link_wins",
+    "auto_link_iff",
+    "infer_global_first",
+    "data_orientation_entry",
+    "weight_orientation_follows_own_dims",
+    "provider_data_entry",
+    "dataset_weight_wins",
+    "model_weight_without_dataset_weight",
+    "layout_invariant",
 ]
 TRUSTED = [
     "hand-written model lean/GlotaranModel/C02.lean (+LinAlg.lean) of optimization/{matrix,estimation,data}_provider.py, "
@@ -54,12 +77,16 @@ TRUSTED = [
     "LAPACK / scipy.optimize.nnls numerics (penalty vectors are compared with the exact rational model at a relative "
     "tolerance of 1e-9 on well-conditioned integer problems)",
     "the test megacomplexes of harness/gen_scheme.py stand for arbitrary megacomplexes (matrices are inputs of the model)",
+    "the translator harness/props/_c02_sym.py + _c02_steps.py (symbolic execution of the provider methods' ast; order and operands of "
+    "the steps, regenerated into Generated/C02Steps.lean); the bodies of combine_megacomplex_matrices, apply_relations, apply_constraints, "
+    "align_matrices, retrieve_clps, calculate_clp_penalties are steps of the table, not opened by it",
 ]
 ASSUMPTIONS = [
     "megacomplex outputs are inputs of the model (C04-C07 cover the builtin megacomplexes)",
     "the weight a dataset ends up with from model-level weights is taken from the data provider (C08 covers its construction); "
     "dataset-supplied weights are taken from the scheme",
-    "link_clp=None is resolved by the harness' own reading of is_linkable (no global model in the group)",
+    "link_clp=None is resolved by the harness' own reading of is_linkable (no global model in the group) for the scheme stream; the real "
+    "decision is modelled (Layout.resolveLink, auto_link_iff) and compared with the real OptimizationGroup in the layout stream",
 ]
 RULE = (
     "random scheme specs from harness/gen_scheme.py (1-4 datasets, 1-2 groups, link_clp true/false/auto, index-(in)dependent "
@@ -72,6 +99,23 @@ RULE = (
     "distinct spec + parameter vector"
 )
 RTOL = 1e-9
+
+
+# --------------------------------------------------------------------------------------------
+# regenerated table (DESIGN §5.2): order and operands of the steps that build the penalty vector
+# --------------------------------------------------------------------------------------------
+def generate(ck):
+    res = steps_mod.extract(core.REPO)
+    text = steps_mod.render_lean(res)
+    LEAN_GEN_STEPS.parent.mkdir(parents=True, exist_ok=True)
+    if not LEAN_GEN_STEPS.exists() or LEAN_GEN_STEPS.read_text() != text:
+        LEAN_GEN_STEPS.write_text(text)
+    bad = steps_mod.untranslatable(res)
+    ck.extra["steps_table"] = {"fields": len(steps_mod.ORDER), "untranslatable": bad[:6], "table": res["table"]}
+    return [{"table": "Steps (lean/GlotaranModel/Generated/C02Steps.lean): order and operands of the steps that build the penalty "
+                      "vector (megacomplex scale/combine, data x weight, dataset scale -> slice -> relations -> constraints -> weight, "
+                      "kron + flattened weight, aligned stacking/weights/data, solver calls, penalty accumulation, concatenation order)",
+             "source": sorted(res["sha"]), "sha1": steps_mod.sha1(text), "untranslatable": len(bad)}]
 
 
 # --------------------------------------------------------------------------------------------
@@ -580,6 +624,7 @@ def run(ck):
         if len(batch) >= 60:
             flush(ck, batch)
     flush(ck, batch)
+    _c02_layout.run_layout(ck)
 
 
 def search(ck):
@@ -591,18 +636,22 @@ def search(ck):
         if ck.violations:
             break
     flush(ck, batch)
+    if not ck.violations:
+        _c02_layout.search_layout(ck)
 
 
 def replay(ck, case):
     gen_scheme.model_class()
     specs = []
-    if "case" in case and "spec" in case["case"]:
+    if "case" in case and "spec" in case["case"] and "layout_variation" not in case["case"]:
         specs.append(case["case"]["spec"])
     for d in case.get("disagreements", []):
-        specs.append(d["case"]["spec"])
+        if "spec" in d["case"] and "layout_variation" not in d["case"]:
+            specs.append(d["case"]["spec"])
     batch = []
     for s in specs:
         check_spec(ck, s, batch)
     flush(ck, batch)
+    _c02_layout.replay_layout(ck, case)
     for d in ck.disagreements:
         print("DISAGREEMENT", d["what"])
